@@ -11,8 +11,8 @@ parameters (the result list) are accumulators, not instances."""
 from vfacts import strip, walk, is_node, method_name
 
 RULE = 'BACKTRACK'
-FLOOR = 2
-ANCHORS = ['OndriksMTBDD::getPathsRec']
+FLOOR = 1
+ANCHORS = []   # the branch state can legitimately become a local copy (refactor/J-2); health: floor + witness
 WITNESS = 'src/backtrack.cc'
 APPEND = ('push_back', 'insert', 'emplace', 'emplace_back', 'push_front', 'push')
 READERS = ('find', 'begin', 'end', 'cbegin', 'cend', 'at', 'count', 'size', 'empty', 'front', 'back', 'lower_bound', 'upper_bound', 'length', 'data', 'c_str')
@@ -27,11 +27,26 @@ def run(unit, em):
         if not rec:
             continue
         short = fn.q.replace('VATA::', '').replace('MTBDDPkg::', '')
-        for p in fn.params:
+        from .prov import var_table as _vt
+        cands = [dict(p, _param=True) for p in fn.params]
+        for d_, v_ in _vt(fn).items():
+            if v_['kind'] == 'local' and not unit.ty(v_['decl']).rstrip().endswith(('&', '*')):
+                cands.append(dict(v_['decl'], _param=False))
+        for p in cands:
             d = p['d']
-            forwarded = any((strip(a) or {}).get('d') == d and (strip(a) or {}).get('k') == 'DeclRefExpr' for c in rec for a in c.get('args') or [])
+            kinds = set()
+            for c in rec:
+                pk = c.get('pk') or ''
+                for i_, a in enumerate(c.get('args') or []):
+                    sa = strip(a)
+                    if sa is not None and sa['k'] == 'DeclRefExpr' and sa.get('d') == d:
+                        kinds.add(pk[i_] if i_ < len(pk) else '?')
+            forwarded = bool(kinds)
             if not forwarded:
                 continue
+            if not p['_param']:
+                # a local of this invocation handed on: only a non-const reference lets the callee change it
+                p = dict(p, ref=('r' if 'r' in kinds else None))
             state_mut = None
             for n in fn.walk(lambdas=False):
                 if n['k'] == 'CXXMemberCallExpr' and not n.get('const') and (strip(n.get('obj')) or {}).get('d') == d and method_name(n) not in APPEND + READERS:
